@@ -124,7 +124,9 @@ func Convert(graph gdbi.GraphInterface, dataType gdbi.DataType, markTypes map[st
 				//log.Infof("Loading output vertex: %s", ve.ID)
 				//TODO: doing single vertex queries is slow.
 				// Need to rework this to do batched queries
-				ve = graph.GetVertex(ve.ID, true)
+				if lv := graph.GetVertex(ve.ID, true); lv != nil {
+					ve = lv
+				}
 			}
 			return &gripql.QueryResult{
 				Result: &gripql.QueryResult_Vertex{
@@ -139,7 +141,9 @@ func Convert(graph gdbi.GraphInterface, dataType gdbi.DataType, markTypes map[st
 		ee := t.GetCurrent()
 		if ee != nil {
 			if !ee.Loaded {
-				ee = graph.GetEdge(ee.ID, true)
+				if le := graph.GetEdge(ee.ID, true); le != nil {
+					ee = le
+				}
 			}
 			return &gripql.QueryResult{
 				Result: &gripql.QueryResult_Edge{
@@ -160,26 +164,31 @@ func Convert(graph gdbi.GraphInterface, dataType gdbi.DataType, markTypes map[st
 	case gdbi.SelectionData:
 		selections := map[string]*gripql.Selection{}
 		for k, v := range t.GetSelections() {
+			if v == nil {
+				// the selected mark holds no element (undefined mark or null step)
+				selections[k] = &gripql.Selection{}
+				continue
+			}
 			switch markTypes[k] {
 			case gdbi.VertexData:
-				var ve *gripql.Vertex
 				if !v.Loaded {
-					ve = graph.GetVertex(v.ID, true).ToVertex()
-				} else {
-					ve = v.ToVertex()
+					if lv := graph.GetVertex(v.ID, true); lv != nil {
+						v = lv
+					}
 				}
+				ve := v.ToVertex()
 				selections[k] = &gripql.Selection{
 					Result: &gripql.Selection_Vertex{
 						Vertex: ve,
 					},
 				}
 			case gdbi.EdgeData:
-				var ee *gripql.Edge
 				if !v.Loaded {
-					ee = graph.GetEdge(ee.Gid, true).ToEdge()
-				} else {
-					ee = v.ToEdge()
+					if le := graph.GetEdge(v.ID, true); le != nil {
+						v = le
+					}
 				}
+				ee := v.ToEdge()
 				selections[k] = &gripql.Selection{
 					Result: &gripql.Selection_Edge{
 						Edge: ee,
@@ -225,6 +234,9 @@ func Convert(graph gdbi.GraphInterface, dataType gdbi.DataType, markTypes map[st
 
 	case gdbi.AggregationData:
 		agg := t.GetAggregation()
+		if agg == nil {
+			return &gripql.QueryResult{Result: &gripql.QueryResult_Aggregations{}}
+		}
 		sValue, _ := structpb.NewValue(agg.Key)
 		return &gripql.QueryResult{
 			Result: &gripql.QueryResult_Aggregations{
